@@ -814,6 +814,29 @@ func FillNodes(t *rapid.T, w *World, p *Profile) {
 			}
 		}
 	}
+	if askerLeaf != "" && len(w.Shim.LiveNodes()) < 3 {
+		// a second preemption round needs victims on a node that the first round did not reserve
+		w.Step(w.genKind(t, OpAddNode, p))
+	}
+	// tight fill: every other leaf ends a little above its guaranteed share (1-4 units), then the nodes are shrunk to what
+	// they hold. The first preemption round takes those leaves down to about their share; whether a second round may take
+	// more from them depends on the victims that are still in flight being discounted.
+	tight := askerLeaf != "" && pct(t, "fill-tight", 60)
+	budget := map[string]int64{} // leaf -> what may still be allocated there
+	if tight {
+		for _, id := range fillApps {
+			if a := w.Last.Apps[id]; a != nil {
+				if _, ok := budget[a.Queue]; ok {
+					continue
+				}
+				if q := w.Last.Queues[a.Queue]; q != nil && q.GuarSet && q.Guaranteed["memory"] > 0 {
+					budget[a.Queue] = q.Guaranteed["memory"] + rapid.Int64Range(1, 4).Draw(t, "fill-excess")
+				} else {
+					budget[a.Queue] = rapid.Int64Range(2, 8).Draw(t, "fill-noguar")
+				}
+			}
+		}
+	}
 	for _, node := range w.Shim.LiveNodes() {
 		for i := 0; i < 8 && !w.Dead && len(w.Vios) == 0; i++ {
 			ns := w.Last.Nodes[node]
@@ -821,6 +844,25 @@ func FillNodes(t *rapid.T, w *World, p *Profile) {
 				break
 			}
 			sz := rapid.Int64Range(2, 4).Draw(t, "fill-size")
+			if tight {
+				// an application whose leaf still has budget
+				var open []string
+				for _, id := range fillApps {
+					if a := w.Last.Apps[id]; a != nil && budget[a.Queue] > 0 {
+						open = append(open, id)
+					}
+				}
+				if len(open) == 0 {
+					break
+				}
+				app := pick(t, "fill-app-tight", open)
+				leaf := w.Last.Apps[app].Queue
+				sz = min(rapid.Int64Range(1, 3).Draw(t, "fill-size-tight"), budget[leaf], ns.Available["memory"], ns.Available["vcore"])
+				budget[leaf] -= sz
+				w.Step(Op{Kind: OpReportBound, App: app, Key: w.Shim.NextID("ask"), Node: node, AllowSelf: true, Res: Res{"memory": sz, "vcore": sz},
+					Prio: int32(rapid.IntRange(-1, 1).Draw(t, "fill-prio-tight")), AgeSec: 3600})
+				continue
+			}
 			op := Op{Kind: OpReportBound, App: pick(t, "fill-app", fillApps), Key: w.Shim.NextID("ask"), Node: node, AllowSelf: true,
 				Res: Res{"memory": min(sz, ns.Available["memory"], ns.Available["vcore"]), "vcore": min(sz, ns.Available["memory"], ns.Available["vcore"])}, Prio: int32(rapid.IntRange(-1, 3).Draw(t, "fill-prio")),
 				Originator: pct(t, "fill-originator", 10), AgeSec: 3600}
@@ -828,6 +870,20 @@ func FillNodes(t *rapid.T, w *World, p *Profile) {
 				op.ReqNode = node
 			}
 			w.Step(op)
+		}
+	}
+	if tight {
+		for _, node := range w.Shim.LiveNodes() {
+			if ns := w.Last.Nodes[node]; ns != nil && !w.Dead && (ns.Available["memory"] > 0 || ns.Available["vcore"] > 0) {
+				res := ns.Capacity.Clone()
+				for _, k := range []string{"memory", "vcore"} {
+					res[k] = ns.Capacity[k] - ns.Available[k]
+					if res[k] < 1 {
+						res[k] = 1
+					}
+				}
+				w.Step(Op{Kind: OpUpdNode, Node: node, Res: res})
+			}
 		}
 	}
 	// the applications whose queue path holds a guaranteed share that is not used up: the ones queue preemption works for
@@ -855,7 +911,12 @@ func FillNodes(t *rapid.T, w *World, p *Profile) {
 			room[id] = left
 		}
 	}
-	for i := rapid.IntRange(1, 4).Draw(t, "fill-starving"); i > 0 && !w.Dead && len(w.Vios) == 0; i-- {
+	starving := rapid.IntRange(1, 4).Draw(t, "fill-starving")
+	if askerLeaf != "" {
+		// several small asks below the share: more than one preemption round, the later ones while victims are in flight
+		starving = rapid.IntRange(2, 6).Draw(t, "fill-starving-directed")
+	}
+	for i := starving; i > 0 && !w.Dead && len(w.Vios) == 0; i-- {
 		app := pick(t, "starving-app", apps)
 		if len(under) > 0 && pct(t, "starving-under-guarantee", 85) {
 			app = pick(t, "starving-app-under", under)
@@ -864,6 +925,13 @@ func FillNodes(t *rapid.T, w *World, p *Profile) {
 			Res: Res{"memory": rapid.Int64Range(1, 4).Draw(t, "starving-mem"), "vcore": rapid.Int64Range(1, 4).Draw(t, "starving-cpu")}, Prio: int32(rapid.IntRange(0, 3).Draw(t, "starving-prio"))}
 		if pct(t, "starving-top-prio", 60) {
 			op.Prio = 3
+		}
+		if askerLeaf != "" && pct(t, "starving-small", 70) {
+			for k, v := range op.Res {
+				if v > 2 {
+					op.Res[k] = 2
+				}
+			}
 		}
 		if r := room[app]; r > 0 {
 			// an ask that still fits in the guaranteed share: the precondition of queue preemption
